@@ -41,7 +41,7 @@ var props = map[string]propCfg{
 		Assumptions: commonAssumptions,
 	},
 	"C10": {
-		Require: []string{"filter_outputs_checked", "process_outputs_checked", "record_files_checked", "display_logs_checked", "outputs_judged_by_construction", "live_sessions", "sessions_with_one_write_held_up"},
+		Require: []string{"filter_outputs_checked", "process_outputs_checked", "record_files_checked", "display_logs_checked", "outputs_judged_by_construction", "live_sessions", "sessions_with_one_write_held_up", "long_process_sessions"},
 		BinRace: true, QuickBatches: 8, ThoroughBatches: 48, Parallel: 8, Bins: []string{"rtcmfilter"}, AppTests: []string{"rtcmfilter"}, Level: "exploration", Floor: 40,
 		Rule:        "(a) in process, through a test file added to apps/rtcmfilter at check time by the build overlay: HandleMessages(start, reader, writer, config) with all four display/record combinations, paced/chunked readers, writers that are fast / yielding / sleeping, GOMAXPROCS in {1,2,4,16}, race detector on; the written bytes are compared at quiescence, defined on goroutine states (every goroutine with a frame in apps/rtcmfilter/main.go parked in a channel receive or gone, no write in flight, call counter stable). (b) the real binary built from the current tree with the hook overlay and the race detector: stdin as a file or a pipe written in random chunks with gaps, stdout read fast or through a 4 kB pipe read slowly, yield/sleep hook profiles, files read after exit as the date-ordered concatenation of the fresh log directory. Oracle: for inputs built from known segments (clean streams, well-formed decodable messages incl. SBAS/QZSS/NavIC and illegal timestamps) the expected output is the concatenation of the generator's own frame segments - independent of the code; for captured batches and hostile streams it is the concatenation of the typed messages of the same build's sequential framing, each required to be a frame by the independent predicate; the record file must hold the same bytes; readable log has one 'Frame length N bytes:' entry per delivered message. Inputs: captured batches, clean streams ending in a frame, hostile streams, well-formed decodable messages, truncated tails. Non-trivial: >= 2 messages delivered. Distinct by hash of the case.",
 		Assumptions: commonAssumptions,
